@@ -48,7 +48,8 @@ class _Sub(ast.NodeTransformer):
         return n
 
 
-def _table_rows(table, ntargets):
+def _table_rows(table, ntargets, pure=None):
+    _pure = pure or globals()['_pure']
     if not isinstance(table, (ast.Tuple, ast.List)) or not table.elts:
         return None
     rows = []
@@ -353,7 +354,7 @@ def partial_eval(fn, module):
     return n
 
 
-def unroll_table_loops(fn_node, module=None, max_rows=64):
+def unroll_table_loops(fn_node, module=None, max_rows=64, pure=None):
     """Returns (new function node, number of loops unrolled)."""
     fn = clone(fn_node)
     count = [0]
@@ -410,7 +411,7 @@ def unroll_table_loops(fn_node, module=None, max_rows=64):
             if found is None:
                 return None
             table = found
-        rows = _table_rows(table, len(targets))
+        rows = _table_rows(table, len(targets), pure)
         if rows is None:
             rows = _dict_rows(st.iter, len(targets), module, fn)
         if rows is None or len(rows) > max_rows:
@@ -427,6 +428,13 @@ def unroll_table_loops(fn_node, module=None, max_rows=64):
                 used |= {n.id for n in ast.walk(e) if isinstance(n, ast.Name)}
         if used & (_assigned_names(between) | body_assigned):
             return None
+        if pure is not None:
+            # rows with calls: the body must not change anything a row reads (assignment through, mutating call)
+            from .normal import _mutated_names
+            holder = ast.Module(body=list(st.body) + list(between), type_ignores=[])
+            mut, _ = _mutated_names(holder)
+            if used & mut:
+                return None
         new = []
         for r in rows:
             mapping = dict(zip(targets, r))
